@@ -1260,10 +1260,13 @@ impl Scenario for RefStore {
     }
     fn cpu_limit_s(&self, p: &str) -> u64 {
         // C17 hunts endless loops (a normal run needs milliseconds); C20 copies the tree at every mutation
+        // (CPU time stretches several-fold on a machine that runs other batches next to this one: a thorough-tier history
+        // that needs 2 s alone was seen to need more than 15 s; a limit that fires without a hang cannot be replayed and
+        // is a harness error, so the limits are generous — an endless loop hits any of them)
         match p {
-            "C17" => 10,
-            "C20" => 90,
-            _ => 15,
+            "C17" => 40,
+            "C20" => 300,
+            _ => 120,
         }
     }
     fn worker_init(&self, dir: &Path, _tier: Tier) {
